@@ -6,7 +6,7 @@ from .common import *
 
 META = {
     'title': 'HMAC: key normalisation to exactly one block on every path, ipad/opad constants and nesting order, complete key replacement, hash classes expose blocksize and return bytes',
-    'expected_min': 10,
+    'expected_min': 316,
     'explanation': 'HMAC.__init__/setkey/__call__ are normalised and compared with a restatement of RFC 2104; additionally the post-condition '
                    'len(K) == blocksize/8 of setkey is decided by a small must-analysis over the normalised conditional term (each branch either '
                    'zero-pads to sz or is guarded by len(k) == sz), and every hash class usable as h sets blocksize in its constructor.',
